@@ -266,3 +266,7 @@ impl Layer {
         }
     }
 }
+
+#[cfg(kani)]
+#[path = "/verif/harness/link_layer.rs"]
+mod verif_harness;
